@@ -12,6 +12,7 @@
 #include "Phreeqc.h"
 #include "hx.hpp"
 #include <cmath>
+#include <set>
 using hx::hexd;
 
 struct Cookie { IPhreeqc* ip; int run; int ndump; };
@@ -123,6 +124,19 @@ public:
       rxn(o, s->rxn_x);
       o << "\n";
     }
+    {  // species that occur in a rewritten equation without being in s_x (master species of an element that is not in
+       // the solution, e.g. HCO3- in the equation of CN-): the log activity the engine holds for them
+      std::set<class species*> in_x(e->s_x.begin(), e->s_x.end()), seen;
+      for (size_t i = 0; i < e->s_x.size(); i++) {
+        CReaction& r = e->s_x[i]->rxn_x;
+        for (size_t j = 1; j < r.token.size() && r.token[j].s; j++) {
+          class species* t = r.token[j].s;
+          if (t == e->s_eminus || in_x.count(t) || seen.count(t)) continue;
+          seen.insert(t);
+          o << "x " << t->name << " " << hexd(t->la) << "\n";
+        }
+      }
+    }
     if (e->s_eminus) {   // e- is not a member of s_x; its log activity is -pe
       class species* s = e->s_eminus;
       o << "s " << s->name << " " << s->type << " " << hexd(s->z) << " " << hexd(s->lm) << " " << hexd(s->lg) << " " << hexd(s->la)
@@ -167,6 +181,7 @@ public:
     for (size_t i = 0; i < e->master.size(); i++) {
       class master* m = e->master[i];
       if (m->in == FALSE && m->total == 0.0) continue;
+      if (!m->s || m->s->type >= SOLID) continue;      // exchange / surface masters are outside C01
       o << "rt " << m->elt->name << " " << hexd(e->total(m->elt->name)) << "\n";
     }
     o << "rt H " << hexd(e->total("H")) << "\nrt O " << hexd(e->total("O")) << "\nrt water " << hexd(e->total("water"))
@@ -188,6 +203,8 @@ public:
       if (p->in != TRUE || p->type != SOLID) continue;
       o << "rkp " << p->name << " " << hexd(e->calc_logk_p(p->name)) << "\n";
     }
+    for (std::map<std::string, class logk*>::iterator it = e->logk_map.begin(); it != e->logk_map.end(); ++it)
+      o << "rn " << it->first << " " << hexd(e->calc_logk_n(it->first.c_str())) << "\n";
     o << "enddump\n";
   }
 };
